@@ -78,10 +78,29 @@ def measure_mem(fn, budget=None):
         tracemalloc.start(1)
     base = tracemalloc.get_traced_memory()[0]
     tracemalloc.reset_peak()
+    # a call that allocates without end is cut short by an address-space cap for the duration of the call (current size + 128 MiB): the
+    # MemoryError ends it, the peak measured up to there is far above every budget.  Without the cap such a call runs for minutes under
+    # tracemalloc before the process limit stops it (a seeded change made whole shards time out that way, wave 10)
+    old_limit = None
+    try:
+        import resource
+        with open('/proc/self/statm') as f:
+            cur = int(f.read().split()[0]) * resource.getpagesize()
+        old_limit = resource.getrlimit(resource.RLIMIT_AS)
+        cap = cur + (128 << 20)
+        if old_limit[0] == resource.RLIM_INFINITY or cap < old_limit[0]:
+            resource.setrlimit(resource.RLIMIT_AS, (cap, old_limit[1]))
+        else:
+            old_limit = None
+    except Exception:
+        old_limit = None
     try:
         st, res, exc, exceeded = measure(fn, budget)
         peak = tracemalloc.get_traced_memory()[1] - base
     finally:
+        if old_limit is not None:
+            import resource
+            resource.setrlimit(resource.RLIMIT_AS, old_limit)
         if started:
             tracemalloc.stop()
     return st, max(0, peak), res, exc, exceeded
